@@ -20,15 +20,19 @@ RULE = ('histories = ALL sequences of length <= 3 and sampled ones of length 4..
         'alphabet {export, export(add_bn=False) [PIT], summary, cost(get_cost of the default '
         'name), get_cost(name), set cost_specification to another spec and back, forward} on PIT / '
         'MPS per-layer / MPS per-channel / SuperNet models, handed over in train and in eval '
-        'mode, full_cost on/off, non-Gumbel sampling.  One case = (model configuration, batch of '
+        'mode, full_cost on/off, Gumbel sampling in a quarter of the MPS / SuperNet configurations.  One case = (model configuration, batch of '
         'sequences); twins are rebuilt per sequence.  Non-trivial: the sequence contains at least '
         'one observer call on a model whose architectural parameters were moved; distinct = '
         '(configuration, sequence).')
 RULE += ('  Round 2: MPS models with one convolution excluded from the search and plain params/ops metrics (constant cost of a non-NAS layer under full_cost).')
+RULE += ('  Round 4: warm-up forward in grad mode; first observation "as is": cost of the stored sample, its differentiability and its gradient w.r.t. the architectural parameters; PIT masks pruned for real in every other case.')
 ASSUMPTIONS = [
     'a forward in train mode legitimately moves BatchNorm statistics: the twin executes the same '
     'forwards',
-    'Gumbel noise is excluded (with noise enabled "unchanged" is not defined bit-wise)',
+    'with Gumbel noise every forward of the history and of the observation is seeded on both twins; '
+    'the observers themselves must leave the stored sample alone (checked by the as-is observation)',
+    'as-is observation is one-sided: losing the differentiability / gradient of the cost is a '
+    'violation, gaining a graph the twin does not have is not',
     'adding a non-persistent attribute to a fixed layer\'s __dict__ is not by itself a violation, '
     'only its observable consequences are',
 ]
